@@ -228,6 +228,9 @@ var rules = []rule{
 		{"short", nil, M{"volumes": L{"vol1:/data"}}, M{"volumes": L{"ghost:/data"}}},
 		{"long", nil, M{"volumes": L{M{"type": "volume", "source": "vol1", "target": "/data"}}}, M{"volumes": L{M{"type": "volume", "source": "ghost", "target": "/data"}}}},
 		{"short-ro", M{"volumes": L{"vol1:/one"}}, M{"volumes": L{"vol2:/two:ro"}}, M{"volumes": L{"ghost:/two:ro"}}},
+		// a declared volume is referred to by its key, not by the name it resolves to
+		{"resolved-default-name", nil, M{"volumes": L{"vol1:/data"}}, M{"volumes": L{"verif_vol1:/data"}}},
+		{"external-name", nil, M{"volumes": L{"vol2:/data"}}, M{"volumes": L{M{"type": "volume", "source": "real-vol2", "target": "/data"}}}},
 	}},
 	{"undeclared-secret", scService, []variant{
 		{"short", nil, M{"secrets": L{"sec1"}}, M{"secrets": L{"ghost"}}},
@@ -256,9 +259,15 @@ var rules = []rule{
 	}},
 	{"dangling-ipc", scService, []variant{
 		{"service", nil, M{"ipc": "service:other"}, M{"ipc": "service:ghost"}},
+		// beside another namespace attribute that holds something else than a service reference
+		{"after-host-network", M{"network_mode": "host"}, M{"ipc": "service:other"}, M{"ipc": "service:ghost"}},
+		{"after-container-network", M{"network_mode": "container:outside"}, M{"ipc": "service:other"}, M{"ipc": "service:ghost"}},
 	}},
 	{"dangling-pid", scService, []variant{
 		{"service", nil, M{"pid": "service:other"}, M{"pid": "service:ghost"}},
+		{"after-host-network", M{"network_mode": "host"}, M{"pid": "service:other"}, M{"pid": "service:ghost"}},
+		{"after-shareable-ipc", M{"ipc": "shareable"}, M{"pid": "service:other"}, M{"pid": "service:ghost"}},
+		{"after-container-ipc", M{"ipc": "container:outside", "network_mode": "none"}, M{"pid": "service:other"}, M{"pid": "service:ghost"}},
 	}},
 	{"dangling-volumes_from", scService, []variant{
 		{"plain", nil, M{"volumes_from": L{"other"}}, M{"volumes_from": L{"ghost"}}},
